@@ -89,7 +89,12 @@ func StorableReply(t *rapid.T, h *Hist, label string) (world.Reply, int64) {
 			cc = []string{"max-age=" + hv}
 			life = 1 << 31
 		}
-		rp.Header = append(rp.Header, H("Cache-Control", JoinCC(cc)), H("Date", "$T+0"))
+		rp.Header = append(rp.Header, H("Cache-Control", JoinCC(cc)))
+		if Pct(t, label+"-nodate", 25) {
+			// no Date from the origin: the cache records the time it received the response
+		} else {
+			rp.Header = append(rp.Header, H("Date", "$T+0"))
+		}
 	case 1:
 		life = Pick(t, label+"-life", int64(5), 10, 60, 600, 3600, 86400)
 		rp.Header = append(rp.Header, H("Date", "$T+0"), H("Expires", DateOff(life)))
@@ -332,10 +337,12 @@ func C13(t *rapid.T) *world.Scenario {
 	}
 	if Pct(t, "nc", 10) {
 		cc = append(cc, "no-cache")
+	} else if Pct(t, "ncq", 10) {
+		cc = append(cc, `no-cache="X-Secret"`)
 	}
 	first := &world.Req{Method: "GET", URL: u}
 	first.Uncond = world.Reply{Kind: "resp", Status: 200, Body: world.Body{Len: 30},
-		Header: [][2]string{H("Date", "$T+0"), H("Cache-Control", JoinCC(cc)), H("Etag", `"v$S"`)}}
+		Header: [][2]string{H("Date", "$T+0"), H("Cache-Control", JoinCC(cc)), H("Etag", `"v$S"`), H("X-Secret", "mark$S;")}}
 	if Pct(t, "lm", 30) {
 		first.Uncond.Header = append(first.Uncond.Header, H("Last-Modified", "$T-5000"))
 	}
@@ -365,8 +372,9 @@ func C13(t *rapid.T) *world.Scenario {
 		var rcc []string
 		if place == 1 || place == 2 {
 			w2 := win
-			if place == 2 && Pct(t, lbl+"-w2", 50) {
-				w2 = Pick(t, lbl+"-w2v", int64(0), 1, 5, 30, 60, 3600)
+			if place == 2 && Pct(t, lbl+"-w2", 60) {
+				// another window on the request: the larger of the two decides
+				w2 = Pick(t, lbl+"-w2v", int64(0), 1, 5, 30, 60, 3600, 100000, 100000)
 			}
 			rcc = append(rcc, "stale-if-error="+itoa(w2))
 		}
@@ -382,7 +390,11 @@ func C13(t *rapid.T) *world.Scenario {
 		}
 		rq.Uncond = world.Reply{Kind: "resp", Status: 200, Body: world.Body{Len: 30}, Header: [][2]string{H("Date", "$T+0"), H("Cache-Control", "max-age=5"), H("Etag", `"v$S"`)}}
 		fail := &world.Reply{Kind: "err"}
-		switch Weighted(t, lbl+"-fail", 30, 45, 15, 10) {
+		switch Weighted(t, lbl+"-fail", 25, 40, 15, 10, 10) {
+		case 4:
+			// the origin never answers: the call fails when the caller's deadline expires
+			fail = &world.Reply{Kind: "hang"}
+			rq.DeadlineNs = Pick(t, lbl+"-dl", int64(1), 3) * Sec
 		case 1:
 			fail = &world.Reply{Kind: "resp", Status: Pick(t, lbl+"-st", 500, 502, 503, 504), Body: world.Body{Len: 10}, Header: [][2]string{H("Date", "$T+0")}}
 		case 2:
@@ -426,8 +438,13 @@ func C20(t *rapid.T) *world.Scenario {
 	life := Pick(t, "life", int64(0), 1, 10, 60)
 	win := Pick(t, "win", int64(2), 10, 60, 3600, 100000)
 	first := &world.Req{Method: "GET", URL: u}
+	c20cc := "max-age=" + itoa(life) + ", stale-while-revalidate=" + itoa(win)
+	if Pct(t, "qualified", 15) {
+		// fields withheld from the stale response still serve as validators of the revalidation
+		c20cc += Pick(t, "qualifiedv", `, no-cache="ETag"`, `, no-cache="Last-Modified"`, `, no-cache="etag, last-modified"`, `, no-cache="X-Other"`)
+	}
 	first.Uncond = world.Reply{Kind: "resp", Status: 200, Body: world.Body{Len: 30},
-		Header: [][2]string{H("Date", "$T+0"), H("Cache-Control", "max-age="+itoa(life)+", stale-while-revalidate="+itoa(win))}}
+		Header: [][2]string{H("Date", "$T+0"), H("Cache-Control", c20cc)}}
 	first.Uncond.Header = append(first.Uncond.Header, validators(t, "val")...)
 	sc.Steps = append(sc.Steps, ReqStep(first))
 	serves := rapid.IntRange(1, 3).Draw(t, "serves")
@@ -441,7 +458,10 @@ func C20(t *rapid.T) *world.Scenario {
 			sc.Steps = append(sc.Steps, SleepStep(d))
 		}
 		rq := &world.Req{Method: "GET", URL: u}
-		switch Weighted(t, lbl+"-cancel", 70, 10, 20) {
+		switch Weighted(t, lbl+"-cancel", 60, 10, 20, 10) {
+		case 3:
+			// the caller's own deadline lies beyond the revalidation timeout: it must not replace it
+			rq.DeadlineNs = (T + Pick(t, lbl+"-dl", int64(1), 10, 3600)) * Sec
 		case 1:
 			rq.CancelNs = -1
 		case 2:
